@@ -28,6 +28,12 @@ Theorem C11_retained_step : forall cap ops, holds_along retained_ok cap ops.
 Proof. exact retained_along. Qed.
 Print Assumptions C11_retained_step.
 
+(* will messages count as publishes: the publish of a closing connection is never refused (ErrQueueFull), so a retained
+   will always reaches the retained store (by C11_retained_step applied to that accepted publish) *)
+Theorem C11_will_accepted : forall cap ops, holds_along closing_accepted_ok cap ops.
+Proof. exact closing_accepted_along. Qed.
+Print Assumptions C11_will_accepted.
+
 (* Subscribe appends to the subscriber's temporary queue, filter by filter in the order of the
    packet, exactly the stored retained messages m with topic_matches f (topic m) (each batch in
    some order; as stored, hence retain = true and topic/payload intact), cut where the queue is
